@@ -213,7 +213,7 @@ func (c *Cmd) Start() error {
 		io.WriteString(c.Stdout, c.Dir+"\n")
 	}
 	if v, ok := p.Spec["touch"]; ok {
-		os.WriteFile(filepath.Join(c.Dir, v), []byte("made by pid "+strconv.Itoa(p.Pid)+"\n"), 0o666)
+		os.WriteFile(filepath.Join(c.Dir, v), []byte("made by "+strings.Join(c.Args[1:], " ")+"\n"), 0o666)
 	}
 	code, _ := strconv.Atoi(p.Spec["code"])
 	if d, ok := parseDur(p.Spec["run"]); ok {
